@@ -1,24 +1,997 @@
-//! C17 — not implemented yet (stub so that the registry compiles).
+//! C17 — tap-dance performs exactly the action for the number of taps.
+//!
+//! Oracle: an executable reference model of the documented tap-dance rules (configuration guide,
+//! "tap-dance": the timeout restarts at every press; the action is chosen when the timeout expires,
+//! a different key is pressed, or the list is exhausted; the eager form performs action i at tap i)
+//! combined with the processing discipline of DESIGN.md appendix A (events are consumed in arrival
+//! order, one per tick; while a lazy dance is undecided later events wait; after a lazy decision
+//! event processing pauses for `rapid-event-delay` ticks). The model predicts the complete OS key
+//! stream (which key, down/up, in which tick); the real code is observed through the stepper.
+//!
+//! The only place where the statement leaves a choice is a press arriving exactly `T` ticks after
+//! the previous one in the lazy form: "counted" and "starts a new dance" are both accepted; the
+//! unchanged tree does neither (the press is swallowed) — that is reported under its own signature
+//! (known finding, DESIGN §6 #11). Schedules in which more presses of the dance key are queued at
+//! one examination than the list has items left (only reachable with same-millisecond events or
+//! taps faster than rapid-event-delay) are not determined by the statement and judged by
+//! invariants only.
 
+use crate::core::sim::{code_name, osc, render_hist, Ev, OutKind, Sim};
 use crate::core::{CaseOut, Check, Ctx};
+use serde_json::{json, Value};
+use std::collections::VecDeque;
 
 pub struct C17Check;
 pub static C17: C17Check = C17Check;
+
+// ------------------------------------------------------------------------------------------------
+// configurations
+
+#[derive(Clone, Copy, PartialEq, Eq, Debug)]
+enum In {
+    PD,
+    RD,
+    PO,
+    RO,
+}
+
+#[derive(Clone, Debug)]
+struct Conf {
+    lazy: bool,
+    len: usize,
+    t: u32,
+    r: u32,
+    /// list contains a layer-while-held and a tap-hold item: judged by invariants only
+    special: bool,
+}
+
+const D_KEY: &str = "a";
+const O_KEY: &str = "b";
+const WITNESS: [&str; 4] = ["1", "2", "3", "4"];
+/// key index used for the other key in model output
+const OTHER: u8 = 9;
+
+impl Conf {
+    fn text(&self) -> String {
+        let form = if self.lazy { "tap-dance" } else { "tap-dance-eager" };
+        if self.special {
+            // position 2 holds a layer on which the other key is a different witness, position 3 is a
+            // tap-hold
+            format!(
+                "(defcfg process-unmapped-keys yes rapid-event-delay {r})\n(defsrc {D_KEY} {O_KEY})\n(deflayer base ({form} {t} (1 (layer-while-held nav) (tap-hold 20 20 3 4) 5)) {O_KEY})\n(deflayer nav _ c)\n",
+                r = self.r,
+                t = self.t
+            )
+        } else {
+            format!(
+                "(defcfg process-unmapped-keys yes rapid-event-delay {r})\n(defsrc {D_KEY} {O_KEY})\n(deflayer base ({form} {t} ({list})) {O_KEY})\n",
+                r = self.r,
+                t = self.t,
+                list = WITNESS[..self.len].join(" ")
+            )
+        }
+    }
+    fn label(&self) -> String {
+        format!("{}|L{}|T{}|R{}{}", if self.lazy { "lazy" } else { "eager" }, self.len, self.t, self.r, if self.special { "|special" } else { "" })
+    }
+    fn gaps(&self) -> [u32; 5] {
+        [0, 1, self.t - 1, self.t, self.t + 1]
+    }
+}
+
+fn configs() -> Vec<Conf> {
+    let mut v = vec![];
+    for &t in &[3u32, 60] {
+        for &lazy in &[true, false] {
+            for len in 1..=4usize {
+                for &r in &[0u32, 5] {
+                    v.push(Conf { lazy, len, t, r, special: false });
+                }
+            }
+        }
+    }
+    for &t in &[3u32, 60] {
+        for &lazy in &[true, false] {
+            v.push(Conf { lazy, len: 4, t, r: 5, special: true });
+        }
+    }
+    v
+}
+
+// ------------------------------------------------------------------------------------------------
+// schedules
+
+#[derive(Clone, Debug)]
+struct Sched {
+    /// (event, gap in ticks before it); the first gap is 0
+    evs: Vec<(In, u32)>,
+}
+
+impl Sched {
+    fn hist(&self) -> Vec<Ev> {
+        let d = osc(D_KEY);
+        let o = osc(O_KEY);
+        let mut h = vec![];
+        for (e, g) in &self.evs {
+            if *g > 0 {
+                h.push(Ev::T(*g));
+            }
+            h.push(match e {
+                In::PD => Ev::P(d),
+                In::RD => Ev::R(d),
+                In::PO => Ev::P(o),
+                In::RO => Ev::R(o),
+            });
+        }
+        h
+    }
+    fn arrivals(&self) -> Vec<(In, u64)> {
+        let mut t = 0u64;
+        self.evs
+            .iter()
+            .map(|(e, g)| {
+                t += *g as u64;
+                (*e, t)
+            })
+            .collect()
+    }
+}
+
+/// number of exhaustive schedules with exactly n events
+fn block(n: u32) -> u64 {
+    (1u64 << n) * 5u64.pow(n - 1)
+}
+fn total_exhaustive(nmax: u32) -> u64 {
+    (1..=nmax).map(block).sum()
+}
+
+/// Exhaustive schedule number `s`: n events, each the toggle (press if up, release if down) of the
+/// dance key or of the other key, with a gap from the set before every event but the first; keys
+/// still down after the n-th event are released afterwards.
+fn exhaustive_sched(mut s: u64, nmax: u32, gaps: &[u32; 5]) -> Option<Sched> {
+    let mut n = 1;
+    loop {
+        if n > nmax {
+            return None;
+        }
+        let b = block(n);
+        if s < b {
+            break;
+        }
+        s -= b;
+        n += 1;
+    }
+    let keybits = s & ((1 << n) - 1);
+    let mut g = s >> n;
+    let mut evs = vec![];
+    let (mut dd, mut od) = (false, false);
+    let mut gsum = 0usize;
+    for i in 0..n {
+        let gap = if i == 0 {
+            0
+        } else {
+            let gi = (g % 5) as usize;
+            g /= 5;
+            gsum += gi;
+            gaps[gi]
+        };
+        let is_o = (keybits >> i) & 1 == 1;
+        let e = if is_o {
+            od = !od;
+            if od {
+                In::PO
+            } else {
+                In::RO
+            }
+        } else {
+            dd = !dd;
+            if dd {
+                In::PD
+            } else {
+                In::RD
+            }
+        };
+        evs.push((e, gap));
+    }
+    // closing releases
+    let mut cg = gaps[(gsum + n as usize) % 5];
+    let order: [bool; 2] = if (gsum + keybits as usize) % 2 == 0 { [false, true] } else { [true, false] };
+    for is_o in order {
+        if is_o && od {
+            evs.push((In::RO, cg));
+            cg = 1;
+            od = false;
+        } else if !is_o && dd {
+            evs.push((In::RD, cg));
+            cg = 1;
+            dd = false;
+        }
+    }
+    Some(Sched { evs })
+}
+
+/// Systematic "k taps" family: k = 1..=6 taps with a uniform hold and press-to-press distance, the
+/// last distance varied separately, optionally an interrupting tap of the other key after the last
+/// tap (before or after the final release).
+fn tap_family(c: &Conf) -> Vec<Sched> {
+    let t = c.t;
+    let mut out = vec![];
+    let holds = [0u32, 1, t - 1];
+    // press-to-press distances; small ones are only meaningful with rapid-event-delay 0
+    let pps = [2u32, t - 1, t, t + 1, t + c.r + 3];
+    for k in 1..=6u32 {
+        for &h in &holds {
+            for &pp in &pps {
+                if pp <= h {
+                    continue;
+                }
+                for &last_pp in &[pp, t - 1, t, t + 1] {
+                    if last_pp <= h {
+                        continue;
+                    }
+                    // interrupt: none, or other key pressed ig ticks after the last press / release
+                    for intr in 0..=8u32 {
+                        let mut evs: Vec<(In, u32)> = vec![];
+                        for i in 0..k {
+                            let gap = if i == 0 {
+                                0
+                            } else if i == k - 1 {
+                                last_pp - h
+                            } else {
+                                pp - h
+                            };
+                            evs.push((In::PD, gap));
+                            if i < k - 1 {
+                                evs.push((In::RD, h));
+                            }
+                        }
+                        // last tap: held h, possibly interrupted while held or after release
+                        let ig = [0u32, 1, t - 1, t + 1][(intr.saturating_sub(1) % 4) as usize];
+                        match intr {
+                            0 => evs.push((In::RD, h)),
+                            1..=4 => {
+                                // other key tapped while the dance key is still held
+                                evs.push((In::PO, ig));
+                                evs.push((In::RO, 1));
+                                evs.push((In::RD, 1));
+                            }
+                            _ => {
+                                evs.push((In::RD, h));
+                                evs.push((In::PO, ig));
+                                evs.push((In::RO, 1));
+                            }
+                        }
+                        out.push(Sched { evs });
+                    }
+                }
+            }
+        }
+    }
+    out
+}
+
+// ------------------------------------------------------------------------------------------------
+// reference model
+
+#[derive(Clone, Debug, PartialEq, Eq)]
+struct MOut {
+    at: u64,
+    down: bool,
+    key: u8,
+}
+
+#[derive(Clone, Debug, Default)]
+struct ModelRes {
+    outs: Vec<MOut>,
+    /// number of boundary decisions met (lazy: presses first seen in the tick the timeout expires)
+    boundary: usize,
+    /// Some(reason) if the statement does not determine the outcome of this schedule
+    undetermined: Option<&'static str>,
+    /// (taps counted, ending cause) per decided dance
+    dances: Vec<(u8, &'static str)>,
+    end_tick: u64,
+    /// smallest |press-to-press distance - T| seen between consecutive dance presses (clamped)
+    min_boundary_dist: u32,
+}
+
+const CH_COUNTED: u8 = 0;
+const CH_NEWDANCE: u8 = 1;
+const CH_SWALLOWED: u8 = 2;
+
+fn model_lazy(c: &Conf, evs: &[(In, u64)], choices: &[u8]) -> ModelRes {
+    let mut res = ModelRes { min_boundary_dist: 99, ..Default::default() };
+    let t_cfg = c.t as u64;
+    let mut q: VecDeque<In> = VecDeque::new();
+    let mut next = 0usize;
+    let mut pause = 0u32;
+    // waiting: (taps counted, timer, queue length at the previous examination)
+    let mut waiting: Option<(usize, u64, usize)> = None;
+    let mut held: Option<u8> = None;
+    let mut tick = 0u64;
+    let last_arrival = evs.last().map(|e| e.1).unwrap_or(0);
+    loop {
+        tick += 1;
+        while next < evs.len() && evs[next].1 < tick {
+            q.push_back(evs[next].0);
+            next += 1;
+        }
+        if let Some((n, timer, seen)) = waiting {
+            let timer = timer.saturating_sub(1);
+            let expired = timer == 0;
+            // presses of the dance key before the first press of another key
+            let mut c_all = 1usize;
+            let mut has_o = false;
+            let mut d_after_o = 0usize;
+            for e in q.iter() {
+                match e {
+                    In::PD if !has_o => c_all += 1,
+                    In::PD => d_after_o += 1,
+                    In::PO => has_o = true,
+                    _ => {}
+                }
+            }
+            let _ = seen;
+            // every press of the dance key that is queued but not counted yet was first seen in this
+            // tick (an earlier examination would have counted it or decided); if the timeout expires
+            // in this very tick the statement leaves open whether it still belongs to the dance
+            let boundary = expired && (c_all > n || d_after_o > 0);
+            let mut choice = CH_NEWDANCE;
+            if boundary {
+                choice = choices.get(res.boundary).copied().unwrap_or(CH_COUNTED);
+                res.boundary += 1;
+                if choice == CH_COUNTED && c_all == n {
+                    // nothing to count before the interrupting key
+                    choice = CH_NEWDANCE;
+                }
+            }
+            let d_after_o = d_after_o > 0;
+            // decide
+            let decided: Option<(usize, &'static str, bool)> = if expired && !(boundary && choice == CH_COUNTED) {
+                Some((n, "timeout", boundary && choice == CH_SWALLOWED))
+            } else if has_o {
+                Some((c_all, "other-key", false))
+            } else if c_all >= c.len {
+                Some((c_all, "exhausted", false))
+            } else {
+                None
+            };
+            match decided {
+                Some((cnt, cause, swallow)) => {
+                    if cnt > c.len {
+                        res.undetermined = Some("more presses queued than list items");
+                    }
+                    let used = cnt.min(c.len);
+                    if swallow {
+                        // what the unchanged tree does: every queued press of the dance key is
+                        // dropped, but only the releases of the counted taps are
+                        let mut rel = used.saturating_sub(1);
+                        q.retain(|e| match e {
+                            In::PD => false,
+                            In::RD if rel > 0 => {
+                                rel -= 1;
+                                false
+                            }
+                            _ => true,
+                        });
+                    } else {
+                        // the counted taps collapse into one press held until the final release
+                        let mut pr = used.saturating_sub(1);
+                        let mut rel = used.saturating_sub(1);
+                        q.retain(|e| match e {
+                            In::PD if pr > 0 => {
+                                pr -= 1;
+                                false
+                            }
+                            In::RD if rel > 0 => {
+                                rel -= 1;
+                                false
+                            }
+                            _ => true,
+                        });
+                        if cause == "other-key" && d_after_o && res.undetermined.is_none() {
+                            // a press of the dance key queued behind the interrupting key at the
+                            // moment of decision: it starts a new dance (it stays queued)
+                            res.undetermined = Some("dance key pressed again behind the interrupting key within one examination");
+                        }
+                    }
+                    res.outs.push(MOut { at: tick, down: true, key: (used - 1) as u8 });
+                    held = Some((used - 1) as u8);
+                    res.dances.push((cnt.min(9) as u8, cause));
+                    pause = c.r;
+                    waiting = None;
+                }
+                None => {
+                    let (n2, timer2) = if c_all > n { (c_all, t_cfg) } else { (n, timer) };
+                    waiting = Some((n2, timer2, q.len()));
+                }
+            }
+        } else if pause > 0 {
+            pause -= 1;
+        } else if let Some(e) = q.pop_front() {
+            match e {
+                In::PD => waiting = Some((1, t_cfg, 0)),
+                In::RD => {
+                    if let Some(k) = held.take() {
+                        res.outs.push(MOut { at: tick, down: false, key: k });
+                    }
+                }
+                In::PO => res.outs.push(MOut { at: tick, down: true, key: OTHER }),
+                In::RO => res.outs.push(MOut { at: tick, down: false, key: OTHER }),
+            }
+        }
+        if next >= evs.len() && q.is_empty() && waiting.is_none() && pause == 0 && tick > last_arrival {
+            break;
+        }
+        if tick > last_arrival + 100_000 {
+            res.undetermined = Some("model did not terminate");
+            break;
+        }
+    }
+    res.end_tick = tick;
+    boundary_dist(c, evs, &mut res);
+    res
+}
+
+fn boundary_dist(c: &Conf, evs: &[(In, u64)], res: &mut ModelRes) {
+    let mut last: Option<u64> = None;
+    for (e, a) in evs {
+        if *e == In::PD {
+            if let Some(l) = last {
+                let d = (*a - l) as i64 - c.t as i64;
+                res.min_boundary_dist = res.min_boundary_dist.min(d.unsigned_abs().min(99) as u32);
+            }
+            last = Some(*a);
+        }
+    }
+}
+
+fn model_eager(c: &Conf, evs: &[(In, u64)]) -> ModelRes {
+    let mut res = ModelRes { min_boundary_dist: 99, ..Default::default() };
+    let mut q: VecDeque<In> = VecDeque::new();
+    let mut next = 0usize;
+    // active dance: (taps so far, timer)
+    let mut active: Option<(usize, u64)> = None;
+    let mut held: Option<u8> = None;
+    let mut tick = 0u64;
+    let last_arrival = evs.last().map(|e| e.1).unwrap_or(0);
+    let mut cur_taps = 0usize;
+    loop {
+        tick += 1;
+        while next < evs.len() && evs[next].1 < tick {
+            q.push_back(evs[next].0);
+            next += 1;
+        }
+        if let Some((n, timer)) = active {
+            let timer = timer.saturating_sub(1);
+            if timer == 0 || n >= c.len {
+                res.dances.push((n as u8, if n >= c.len { "exhausted" } else { "timeout" }));
+                active = None;
+            } else {
+                active = Some((n, timer));
+            }
+        }
+        if let Some(e) = q.pop_front() {
+            match e {
+                In::PD => {
+                    let idx = match active {
+                        Some((n, _)) => {
+                            active = Some((n + 1, c.t as u64));
+                            n
+                        }
+                        None => {
+                            active = Some((1, c.t as u64));
+                            0
+                        }
+                    };
+                    cur_taps = idx + 1;
+                    if let Some(k) = held.take() {
+                        // cannot happen in consistent histories
+                        res.outs.push(MOut { at: tick, down: false, key: k });
+                    }
+                    res.outs.push(MOut { at: tick, down: true, key: idx as u8 });
+                    held = Some(idx as u8);
+                }
+                In::RD => {
+                    if let Some(k) = held.take() {
+                        res.outs.push(MOut { at: tick, down: false, key: k });
+                    }
+                }
+                In::PO => {
+                    if let Some((n, _)) = active.take() {
+                        res.dances.push((n as u8, "other-key"));
+                    }
+                    res.outs.push(MOut { at: tick, down: true, key: OTHER });
+                }
+                In::RO => res.outs.push(MOut { at: tick, down: false, key: OTHER }),
+            }
+        }
+        let _ = cur_taps;
+        if next >= evs.len() && q.is_empty() && active.is_none() && tick > last_arrival {
+            break;
+        }
+        if tick > last_arrival + 100_000 {
+            res.undetermined = Some("model did not terminate");
+            break;
+        }
+    }
+    res.end_tick = tick;
+    boundary_dist(c, evs, &mut res);
+    res
+}
+
+// ------------------------------------------------------------------------------------------------
+// observation
+
+struct Names {
+    w: Vec<String>,
+    o: String,
+    o_alt: String,
+    extra: Vec<String>,
+}
+
+fn names() -> Names {
+    Names {
+        w: WITNESS.iter().map(|k| code_name(osc(k))).collect(),
+        o: code_name(osc(O_KEY)),
+        o_alt: code_name(osc("c")),
+        extra: vec![code_name(osc("5"))],
+    }
+}
+
+/// Run the schedule on `sim` (which is idle), return the non-redundant key outputs relative to the
+/// start tick, and whether kanata got back to idle with everything up.
+fn observe(sim: &mut Sim, c: &Conf, s: &Sched, model_end: u64, nm: &Names) -> (Vec<MOut>, Vec<String>, bool) {
+    sim.trace.clear();
+    sim.last_step_start = 0;
+    let base = sim.now;
+    let d = osc(D_KEY);
+    let o = osc(O_KEY);
+    for (e, g) in &s.evs {
+        sim.ticks(*g as u64);
+        match e {
+            In::PD => sim.press(d),
+            In::RD => sim.release(d),
+            In::PO => sim.press(o),
+            In::RO => sim.release(o),
+        }
+    }
+    let margin = (c.t + c.r + 8) as u64 + if c.special { 40 } else { 0 };
+    let mut target = model_end.max(sim.now - base) + margin;
+    let mut settled = false;
+    for _round in 0..4 {
+        while sim.now - base < target {
+            sim.tick();
+        }
+        let quiet = sim.trace.last().map(|o| sim.now - o.at >= margin.min(20)).unwrap_or(true);
+        if sim.is_idle() && sim.os.all_up() && quiet {
+            settled = true;
+            break;
+        }
+        target += 150;
+    }
+    let mut outs = vec![];
+    let mut raw = vec![];
+    for o in &sim.trace {
+        raw.push(o.short_rel(base));
+        if o.redundant {
+            continue;
+        }
+        let down = match o.kind {
+            OutKind::Down => true,
+            OutKind::Up => false,
+            _ => {
+                outs.push(MOut { at: o.at - base, down: true, key: 200 });
+                continue;
+            }
+        };
+        let key = if let Some(i) = nm.w.iter().position(|n| *n == o.name) {
+            i as u8
+        } else if o.name == nm.o {
+            OTHER
+        } else if o.name == nm.o_alt {
+            OTHER + 1
+        } else if nm.extra.contains(&o.name) {
+            50
+        } else {
+            255
+        };
+        outs.push(MOut { at: o.at - base, down, key: if o.repress { 254 } else { key } });
+    }
+    (outs, raw, settled)
+}
+
+trait ShortRel {
+    fn short_rel(&self, base: u64) -> String;
+}
+impl ShortRel for crate::core::sim::Out {
+    fn short_rel(&self, base: u64) -> String {
+        let p = match self.kind {
+            OutKind::Down => "↓",
+            OutKind::Up => "↑",
+            _ => "?",
+        };
+        format!("{p}{}@{}{}", self.name, self.at - base, if self.redundant { "(redundant)" } else { "" })
+    }
+}
+
+fn render_outs(v: &[MOut], nm: &Names) -> Vec<String> {
+    v.iter()
+        .map(|o| {
+            let n = match o.key {
+                k if (k as usize) < nm.w.len() => nm.w[k as usize].clone(),
+                OTHER => nm.o.clone(),
+                10 => nm.o_alt.clone(),
+                50 => nm.extra[0].clone(),
+                254 => "<re-press>".into(),
+                _ => "<unexpected>".into(),
+            };
+            format!("{}{}@{}", if o.down { "↓" } else { "↑" }, n, o.at)
+        })
+        .collect()
+}
+
+fn same_order(a: &[MOut], b: &[MOut]) -> bool {
+    a.len() == b.len() && a.iter().zip(b).all(|(x, y)| x.down == y.down && x.key == y.key)
+}
+
+/// Invariants that hold whatever the tap count is: nothing unexpected is output, the other key's
+/// events come out exactly once each and in order and not before they went in, every witness press
+/// is released again, there are no more activations than presses of the dance key.
+fn invariants(c: &Conf, s: &Sched, obs: &[MOut], settled: bool) -> Option<(&'static str, String)> {
+    if !settled {
+        return Some(("stuck", "kanata did not return to idle with every key up after the schedule".into()));
+    }
+    let arr = s.arrivals();
+    let o_in: Vec<(bool, u64)> = arr.iter().filter_map(|(e, a)| match e {
+        In::PO => Some((true, *a)),
+        In::RO => Some((false, *a)),
+        _ => None,
+    }).collect();
+    let o_out: Vec<&MOut> = obs.iter().filter(|o| o.key == OTHER || o.key == OTHER + 1).collect();
+    if o_out.len() != o_in.len() {
+        return Some(("interrupting-key-lost", format!("other key: {} events in, {} out", o_in.len(), o_out.len())));
+    }
+    for (i, (down, a)) in o_in.iter().enumerate() {
+        if o_out[i].down != *down {
+            return Some(("interrupting-key-reordered", "other key's press/release order changed".into()));
+        }
+        if o_out[i].at <= *a {
+            return Some(("interrupting-key-early", "other key output before its input".into()));
+        }
+        if !c.special && o_out[i].key != OTHER {
+            return Some(("unexpected-key", "other key produced a different key".into()));
+        }
+    }
+    let mut down: Vec<u8> = vec![];
+    let mut activations = 0usize;
+    for o in obs {
+        if o.key == OTHER || o.key == OTHER + 1 {
+            continue;
+        }
+        if o.key >= 200 {
+            return Some(("unexpected-output", "an output that is neither a list action nor the other key (or a re-press)".into()));
+        }
+        if !c.special && (o.key as usize) >= c.len {
+            return Some(("unexpected-output", "a key that is not in the action list".into()));
+        }
+        if o.down {
+            activations += 1;
+            down.push(o.key);
+        } else {
+            down.retain(|k| *k != o.key);
+        }
+    }
+    let presses = arr.iter().filter(|(e, _)| *e == In::PD).count();
+    if !c.special && activations > presses {
+        return Some(("activation-count", format!("{activations} activations for {presses} presses of the dance key")));
+    }
+    if presses > 0 && activations == 0 && !c.special {
+        return Some(("activation-count", "dance key pressed but no action performed".into()));
+    }
+    None
+}
+
+struct Judged {
+    sig: Option<(String, String)>,
+    expected: Vec<MOut>,
+    observed: Vec<MOut>,
+    raw: Vec<String>,
+    model: ModelRes,
+    swallowed_match: bool,
+}
+
+fn judge(sim: &mut Sim, c: &Conf, s: &Sched, nm: &Names) -> Judged {
+    let arr = s.arrivals();
+    let base_model = if c.lazy { model_lazy(c, &arr, &[]) } else { model_eager(c, &arr) };
+    // alternatives at boundary decisions: explore the tree of choices (a choice can create or
+    // remove later boundary situations)
+    let mut alts: Vec<(Vec<u8>, ModelRes)> = vec![];
+    if base_model.boundary == 0 || c.special {
+        alts.push((vec![], base_model.clone()));
+    } else {
+        let mut stack: Vec<Vec<u8>> = vec![vec![]];
+        while let Some(ch) = stack.pop() {
+            let m = model_lazy(c, &arr, &ch);
+            if m.boundary > ch.len() && ch.len() < 6 {
+                for x in [CH_SWALLOWED, CH_NEWDANCE, CH_COUNTED] {
+                    let mut ch2 = ch.clone();
+                    ch2.push(x);
+                    stack.push(ch2);
+                }
+            } else {
+                alts.push((ch, m));
+            }
+        }
+    }
+    let end = alts.iter().map(|(_, m)| m.end_tick).max().unwrap_or(base_model.end_tick);
+    let (obs, raw, settled) = observe(sim, c, s, end, nm);
+    let form = if c.lazy { "lazy" } else { "eager" };
+    let mut j = Judged { sig: None, expected: base_model.outs.clone(), observed: obs.clone(), raw, model: base_model.clone(), swallowed_match: false };
+    if let Some((k, what)) = invariants(c, s, &obs, settled) {
+        j.sig = Some((format!("C17:{form}:invariant:{k}"), what));
+        return j;
+    }
+    if c.special {
+        return j;
+    }
+    if alts.iter().any(|(_, m)| m.undetermined.is_some()) {
+        j.model.undetermined = alts.iter().find_map(|(_, m)| m.undetermined);
+        return j;
+    }
+    let ok = alts.iter().find(|(ch, m)| !ch.contains(&CH_SWALLOWED) && m.outs == obs);
+    if let Some((_, m)) = ok {
+        j.expected = m.outs.clone();
+        j.model.dances = m.dances.clone();
+        return j;
+    }
+    if let Some((_, m)) = alts.iter().find(|(ch, m)| ch.contains(&CH_SWALLOWED) && m.outs == obs) {
+        j.swallowed_match = true;
+        j.expected = alts.iter().find(|(ch, _)| !ch.contains(&CH_SWALLOWED)).map(|x| x.1.outs.clone()).unwrap_or_default();
+        let _ = m;
+        j.sig = Some((
+            "C17:lazy:press-at-exact-timeout-swallowed".into(),
+            "a press of the dance key arriving exactly T ticks after the previous one is neither counted nor starts a new dance: it is dropped".into(),
+        ));
+        return j;
+    }
+    // classify against the accepted alternatives (closest first: the one agreeing in order)
+    let accepted: Vec<&ModelRes> = alts.iter().filter(|(ch, _)| !ch.contains(&CH_SWALLOWED)).map(|x| &x.1).collect();
+    let class = if accepted.iter().any(|m| same_order(&m.outs, &obs)) {
+        "timing"
+    } else {
+        let m = accepted[0];
+        let acts = |v: &[MOut]| v.iter().filter(|o| o.down && o.key < OTHER).map(|o| o.key).collect::<Vec<_>>();
+        let (ea, oa) = (acts(&m.outs), acts(&obs));
+        if ea.len() != oa.len() {
+            "activation-count"
+        } else if ea != oa {
+            "wrong-action"
+        } else {
+            "order-or-hold"
+        }
+    };
+    j.expected = accepted[0].outs.clone();
+    j.sig = Some((
+        format!("C17:{form}:{class}"),
+        match class {
+            "timing" => "the expected keys in the expected order, but in different ticks".to_string(),
+            "activation-count" => "number of performed actions differs from the model".to_string(),
+            "wrong-action" => "a different list position was performed than the tap count selects".to_string(),
+            _ => "the chosen action is not held until the final release / the other key is not processed after it".to_string(),
+        },
+    ));
+    j
+}
+
+// ------------------------------------------------------------------------------------------------
+// cases
+
+const CHUNK_Q: u64 = 4096;
+const CHUNK_T: u64 = 16384;
+
+fn nmax(ctx: &Ctx, c: &Conf) -> u32 {
+    if c.special {
+        ctx.tier.sel(5, 6)
+    } else {
+        match (ctx.tier, c.t) {
+            (crate::core::Tier::Quick, _) => 6,
+            (crate::core::Tier::Thorough, 3) => 8,
+            (crate::core::Tier::Thorough, _) => 7,
+        }
+    }
+}
+
+/// (config index, first schedule, last schedule (exclusive)); chunk 0 of each config also runs the
+/// tap family
+fn case_layout(ctx: &Ctx) -> Vec<(usize, u64, u64)> {
+    let chunk = ctx.tier.sel(CHUNK_Q, CHUNK_T);
+    let mut v = vec![];
+    for (ci, c) in configs().iter().enumerate() {
+        let tot = total_exhaustive(nmax(ctx, c));
+        let mut s = 0;
+        while s < tot {
+            v.push((ci, s, (s + chunk).min(tot)));
+            s += chunk;
+        }
+    }
+    v
+}
 
 impl Check for C17Check {
     fn id(&self) -> &'static str {
         "C17"
     }
-    fn n_cases(&self, _ctx: &Ctx) -> u64 {
-        0
+    fn n_cases(&self, ctx: &Ctx) -> u64 {
+        case_layout(ctx).len() as u64
     }
-    fn run_case(&self, _ctx: &Ctx, _idx: u64) -> CaseOut {
-        CaseOut::new()
+    fn describe(&self, ctx: &Ctx, idx: u64) -> Value {
+        let lay = case_layout(ctx);
+        let Some(&(ci, a, b)) = lay.get(idx as usize) else { return Value::Null };
+        let c = &configs()[ci];
+        json!({"config": c.text(), "schedules": format!("exhaustive schedules #{a}..#{b} (up to {} events)", nmax(ctx, c))})
+    }
+    fn run_case(&self, ctx: &Ctx, idx: u64) -> CaseOut {
+        let mut out = CaseOut::new();
+        let lay = case_layout(ctx);
+        let Some(&(ci, a, b)) = lay.get(idx as usize) else { return out };
+        let confs = configs();
+        let c = &confs[ci];
+        let nm = names();
+        let cfg = c.text();
+        let mut sim = match Sim::new(&cfg) {
+            Ok(s) => s,
+            Err(e) => {
+                out.inconclusive = Some(format!("config rejected: {}", e.lines().next().unwrap_or("")));
+                return out;
+            }
+        };
+        let n_max = nmax(ctx, c);
+        let gaps = c.gaps();
+        let mut scheds: Vec<Sched> = (a..b).filter_map(|s| exhaustive_sched(s, n_max, &gaps)).collect();
+        out.count("schedules_exhaustive", scheds.len() as u64);
+        if a == 0 && !c.special {
+            let fam = tap_family(c);
+            out.count("schedules_tap_family", fam.len() as u64);
+            scheds.extend(fam);
+        }
+        let form = if c.lazy { "lazy" } else { "eager" };
+        let mut prev: Option<Sched> = None;
+        let mut reported: std::collections::BTreeSet<String> = Default::default();
+        for s in scheds {
+            let j = judge(&mut sim, c, &s, &nm);
+            let mut final_j = j;
+            let mut hist = s.hist();
+            if final_j.sig.is_some() {
+                // confirm on a fresh instance (the running one has processed earlier schedules)
+                match Sim::new(&cfg) {
+                    Ok(mut fresh) => {
+                        let jf = judge(&mut fresh, c, &s, &nm);
+                        if jf.sig.is_none() {
+                            // not reproducible alone: try together with the preceding schedule
+                            let mut confirmed = false;
+                            if let Some(p) = &prev {
+                                if let Ok(mut fresh2) = Sim::new(&cfg) {
+                                    let mut both = p.clone();
+                                    let idle = c.t + c.r + 200;
+                                    let mut first = true;
+                                    for (e, g) in &s.evs {
+                                        both.evs.push((*e, if first { idle } else { *g }));
+                                        first = false;
+                                    }
+                                    let jb = judge(&mut fresh2, c, &both, &nm);
+                                    if jb.sig.is_some() {
+                                        hist = both.hist();
+                                        final_j = jb;
+                                        confirmed = true;
+                                    }
+                                }
+                            }
+                            if !confirmed {
+                                out.inc("mismatch_not_reproduced_on_fresh_instance");
+                                out.inconclusive = Some("a mismatch seen on a re-used instance did not reproduce on a fresh one".into());
+                                // re-create the running instance to be safe
+                                if let Ok(s2) = Sim::new(&cfg) {
+                                    sim = s2;
+                                }
+                                prev = Some(s);
+                                continue;
+                            }
+                        } else {
+                            final_j = jf;
+                        }
+                    }
+                    Err(_) => {}
+                }
+                // the running instance may be in an odd state after a violation
+                if let Ok(s2) = Sim::new(&cfg) {
+                    sim = s2;
+                }
+            }
+            let j = final_j;
+            out.inc("schedules");
+            if c.special {
+                out.inc("judged_by_invariants_special_items");
+            } else if j.model.undetermined.is_some() {
+                out.inc("judged_by_invariants_undetermined");
+            } else {
+                out.inc("judged_by_model");
+                out.inc(&format!("judged_by_model_{form}"));
+                for (n, cause) in &j.model.dances {
+                    out.inc(&format!("{form}_dances_ended_by_{cause}"));
+                    out.inc(&format!("{form}_dances_with_taps_{}", (*n).min(5)));
+                }
+                if j.model.min_boundary_dist <= 1 {
+                    out.inc(&format!("{form}_schedules_with_press_distance_T{}", match j.model.min_boundary_dist { 0 => "", _ => "±1" }));
+                }
+                if j.model.boundary > 0 {
+                    out.inc("lazy_boundary_decisions");
+                }
+                if !j.model.dances.is_empty() {
+                    let d: Vec<String> = j.model.dances.iter().map(|(n, c)| format!("{n}{}", &c[..1])).collect();
+                    let has_o = s.evs.iter().any(|(e, _)| *e == In::PO);
+                    out.tag(format!("{}|{}|o{}", c.label(), d.join(","), has_o as u8));
+                }
+            }
+            if let Some((sig, what)) = &j.sig {
+                if j.swallowed_match {
+                    out.inc("lazy_press_at_exact_timeout_swallowed");
+                }
+                if reported.insert(sig.clone()) {
+                    out.violate(
+                        sig.clone(),
+                        format!("{} {}: {what}", c.label(), render_hist(&hist)),
+                        json!({
+                            "config": cfg,
+                            "history": render_hist(&hist),
+                            "observed": render_outs(&j.observed, &nm),
+                            "observed_raw": j.raw,
+                            "expected": render_outs(&j.expected, &nm),
+                            "model_dances": j.model.dances.iter().map(|(n, c)| format!("{n} taps, ended by {c}")).collect::<Vec<_>>(),
+                            "note": "ticks are relative to the first event; an output @n is produced by the n-th tick after it",
+                        }),
+                    );
+                }
+                if ctx.verbose {
+                    eprintln!("{sig}: {} observed {:?} expected {:?}", render_hist(&hist), render_outs(&j.observed, &nm), render_outs(&j.expected, &nm));
+                }
+            }
+            if out.sample.is_none() && a == 0 && s.evs.len() >= 5 && !j.model.dances.is_empty() && ci % 7 == 0 {
+                out.sample = Some(json!({"config": cfg, "history": render_hist(&hist), "observed": render_outs(&j.observed, &nm), "expected": render_outs(&j.expected, &nm)}));
+            }
+            prev = Some(s);
+        }
+        out
     }
     fn rule(&self) -> String {
-        "not implemented".into()
+        "case = one configuration (action lists of 1-4 distinct witness keys x lazy `tap-dance` / `tap-dance-eager` x timeout T in {3,60} x rapid-event-delay {0,5}; plus 4 configurations whose list holds a layer-while-held and a tap-hold item) and a chunk of the exhaustive schedule space: every sequence of up to N events (quick N=6; thorough N=8 for T=3, N=7 for T=60; 5/6 for the special lists), each event the toggle of the dance key or of one other key, with every combination of inter-event gaps from {0,1,T-1,T,T+1}, keys still down released afterwards; plus a systematic family of 1-6 taps (holds {0,1,T-1}, press distances {2,T-1,T,T+1,T+rapid+3}, optional interrupting tap before/after the final release). Every schedule runs on the real code and is compared tick by tick with the reference model (key, down/up, tick) unless the statement does not determine it (more presses queued within one examination than list items; special list items), in which case only the invariants are judged. Non-trivial = a schedule with at least one decided dance judged by the model; distinct = (configuration, sequence of (tap count, ending cause), interrupting key present).".into()
     }
     fn assumptions(&self) -> Vec<String> {
-        vec![]
+        vec![
+            "processing discipline as in DESIGN appendix A: one queued event per tick in arrival order, a lazy decision pauses event processing for rapid-event-delay ticks; the timeout of a dance counts from the tick its first press is processed".into(),
+            "a press first seen in the tick the lazy timeout expires (distance exactly T) may be counted or start a new dance; both are accepted".into(),
+            "schedules where more presses of the dance key are visible in one examination than the list has items left, or where the dance key is pressed again behind the interrupting key within one examination, are judged by invariants only (needs same-millisecond events or taps faster than rapid-event-delay)".into(),
+            "lists containing layer-while-held / tap-hold items are judged by invariants only (nothing stuck, other key neither lost nor reordered nor early, no unexpected output)".into(),
+            "schedules are physically consistent (press only when up, release only when down) and many schedules run on one kanata instance separated by idle periods; a mismatch is re-judged on a fresh instance before it is reported".into(),
+        ]
+    }
+    fn floors(&self, _ctx: &Ctx) -> Vec<(&'static str, u64)> {
+        vec![
+            ("judged_by_model_lazy", 100_000),
+            ("judged_by_model_eager", 100_000),
+            ("lazy_dances_ended_by_timeout", 10_000),
+            ("lazy_dances_ended_by_other-key", 10_000),
+            ("lazy_dances_ended_by_exhausted", 10_000),
+            ("eager_dances_ended_by_timeout", 10_000),
+            ("eager_dances_ended_by_other-key", 10_000),
+            ("eager_dances_ended_by_exhausted", 10_000),
+            ("lazy_dances_with_taps_3", 1_000),
+            ("eager_dances_with_taps_3", 1_000),
+            ("lazy_dances_with_taps_4", 10),
+            ("eager_dances_with_taps_4", 10),
+            ("lazy_boundary_decisions", 100),
+        ]
+    }
+    fn exhaustive(&self, _ctx: &Ctx) -> bool {
+        true
     }
 }
